@@ -107,6 +107,15 @@ def gen_cases(ck, rng, quick):
                     lines.append("call %s %s %d" % (s, b.hex(), v))
                     cases.append(dict(kind="frame", rec=rname, field=fi, setter=s, buf=b.hex(), v=v, lines=lines, getters=getters))
             ck.count("frame:" + s, len(bufs))
+    # per-bit accessors of the packed status word (M_PS_NA_1): every bit position, boundary and random words
+    scdw = [0x0000, 0xffff, 0x8000, 0x0001, 0x7fff, 0xfffe, 0x4000, 0xa5a5, 0x5a5a] + [rng.below(65536) for _ in range(8 if quick else 200)]
+    for wst in scdw:
+        wcd = rng.choice(scdw)
+        b = bytes([wst & 255, wst >> 8, wcd & 255, wcd >> 8]).hex()
+        for i in range(16):
+            cases.append(dict(kind="scdbit", st=wst, cd=wcd, i=i, lines=["call StatusAndStatusChangeDetection_getST %s %d" % (b, i),
+                                                                          "call StatusAndStatusChangeDetection_getCD %s %d" % (b, i)]))
+    ck.count("scd:bit-reads", len(scdw) * 32)
     # timestamps
     T0, T1 = 946684800000, 4102444800000
     ts = [T0, T0 + 1, T1 - 1, T0 + 86399999, T0 + 86400000, 951782400000 - 1, 951782400000, 951868800000,  # 2000-02-29
@@ -306,6 +315,12 @@ def run(ck):
             ck.nontriv(("fl", w))
         elif k == "scaled":
             ck.nontriv(("s", c["r"]))
+        elif k == "scdbit":
+            got = [int(o.split()[1]) for o in c["out"]]
+            want = [(c["st"] >> c["i"]) & 1, (c["cd"] >> c["i"]) & 1]
+            if [1 if x else 0 for x in got] != want:
+                bad = "StatusAndStatusChangeDetection getST/getCD(%d) on ST=%#06x CD=%#06x returned %s, the bits are %s" % (c["i"], c["st"], c["cd"], got, want)
+            ck.nontriv(("scd", c["st"], c["i"]))
         if bad:
             nbad += 1
             if nbad <= 20:
